@@ -3,13 +3,25 @@
 //! level claim rests on.
 
 use crate::canon;
-use crate::world::empty_read;
 use std::fmt::Write;
 use tz::datetime::{DateTime, UtcDateTime};
-use tz::timezone::{AlternateTime, Julian0WithLeap, Julian1WithoutLeap, LeapSecond, LocalTimeType, MonthWeekDay, RuleDay, TimeZoneRef, TimeZoneSettings, Transition, TransitionRule};
+use tz::timezone::{AlternateTime, Julian0WithLeap, Julian1WithoutLeap, LeapSecond, LocalTimeType, MonthWeekDay, RuleDay, TimeZoneRef, Transition, TransitionRule};
+#[cfg(feature = "tz-alloc")]
+use tz::timezone::TimeZoneSettings;
+#[cfg(feature = "tz-alloc")]
 use tz::TimeZone;
 
+#[cfg(feature = "tz-alloc")]
+fn empty_read(_path: &str) -> Result<Vec<u8>, Box<dyn std::error::Error + Send + Sync + 'static>> {
+    Err("not found".into())
+}
+
 const DESIGS: &[Option<&[u8]>] = &[None, Some(b""), Some(b"AB"), Some(b"ABC"), Some(b"ABCDEFG"), Some(b"ABCDEFGH"), Some(b"A\0C"), Some(b"+03"), Some(b"-0330"), Some(b"\xC3\x89TE"), Some(b"a b"), Some(b"UTC")];
+
+fn kfound(y: i32, mo: u8, d: u8, h: u8, mi: u8, s: u8, z: TimeZoneRef<'_>) -> Result<usize, tz::TzError> {
+    let mut b = [None; 8];
+    DateTime::find_n(&mut b, y, mo, d, h, mi, s, 0, z).map(|l| l.count())
+}
 
 fn a(args: &[i64], i: usize) -> i64 {
     args.get(i).copied().unwrap_or(0)
@@ -41,6 +53,7 @@ pub fn run(kind: &str, args: &[i64]) -> String {
                 let _ = write!(o, "Err({e:?})");
             }
         },
+        #[cfg(feature = "tz-alloc")]
         "fixed" => match TimeZone::fixed(a(args, 0) as i32) {
             Ok(z) => canon::zone(&mut o, z.as_ref()),
             Err(e) => {
@@ -129,9 +142,9 @@ pub fn run(kind: &str, args: &[i64]) -> String {
                                     Err(e) => canon::tzerr(&mut o, &e),
                                 }
                                 if let Ok(d) = DateTime::from_timespec(*t, 0, z) {
-                                    match DateTime::find(d.year(), d.month(), d.month_day(), d.hour(), d.minute(), d.second(), 0, z) {
+                                    match kfound(d.year(), d.month(), d.month_day(), d.hour(), d.minute(), d.second(), z) {
                                         Ok(l) => {
-                                            let _ = write!(o, "k={}", l.into_inner().len());
+                                            let _ = write!(o, "k={}", l);
                                         }
                                         Err(e) => canon::tzerr(&mut o, &e),
                                     }
@@ -139,9 +152,9 @@ pub fn run(kind: &str, args: &[i64]) -> String {
                             }
                             // extreme years through the search
                             for y in [i32::MIN, i32::MIN + 1, i32::MIN + 2, i32::MAX - 2, i32::MAX - 1, i32::MAX] {
-                                match DateTime::find(y, 1 + (a(args, 3).unsigned_abs() % 12) as u8, 1, 0, 0, 0, 0, z) {
+                                match kfound(y, 1 + (a(args, 3).unsigned_abs() % 12) as u8, 1, 0, 0, 0, z) {
                                     Ok(l) => {
-                                        let _ = write!(o, "y{}", l.into_inner().len());
+                                        let _ = write!(o, "y{}", l);
                                     }
                                     Err(_) => o.push('E'),
                                 }
@@ -179,8 +192,12 @@ pub fn run(kind: &str, args: &[i64]) -> String {
             match TimeZoneRef::new(&tr, &types, &lp, &rule) {
                 Ok(z) => {
                     canon::zone(&mut o, z);
-                    let owned = TimeZone::new(tr.clone(), types.to_vec(), lp.clone(), rule);
-                    let _ = write!(o, " owned={}", owned.is_ok());
+                    #[cfg(feature = "tz-alloc")]
+                    {
+                        // the owned constructor must agree with the borrowed one (not part of the canonical result)
+                        let owned = TimeZone::new(tr.clone(), types.to_vec(), lp.clone(), rule);
+                        assert!(owned.is_ok(), "TimeZone::new refuses what TimeZoneRef::new accepts");
+                    }
                     for t in args.iter().skip(p) {
                         match z.find_local_time_type(*t) {
                             Ok(l) => canon::ltt(&mut o, l),
@@ -189,9 +206,9 @@ pub fn run(kind: &str, args: &[i64]) -> String {
                         match DateTime::from_timespec(*t, 0, z) {
                             Ok(d) => {
                                 let _ = write!(o, "{d}");
-                                match DateTime::find(d.year(), d.month(), d.month_day(), d.hour(), d.minute(), d.second(), 0, z) {
+                                match kfound(d.year(), d.month(), d.month_day(), d.hour(), d.minute(), d.second(), z) {
                                     Ok(l) => {
-                                        let _ = write!(o, "k={}", l.into_inner().len());
+                                        let _ = write!(o, "k={}", l);
                                     }
                                     Err(e) => canon::tzerr(&mut o, &e),
                                 }
@@ -203,6 +220,7 @@ pub fn run(kind: &str, args: &[i64]) -> String {
                 Err(e) => canon::tzerr(&mut o, &e),
             }
         }
+        #[cfg(feature = "tz-alloc")]
         "tzstr" => {
             let bytes: Vec<u8> = args.iter().map(|x| *x as u8).collect();
             let s = String::from_utf8_lossy(&bytes).into_owned();
@@ -211,6 +229,7 @@ pub fn run(kind: &str, args: &[i64]) -> String {
                 Err(e) => canon::err(&mut o, &e),
             }
         }
+        #[cfg(feature = "tz-std")]
         "ambient_local" => {
             // real filesystem, not part of the seeded search
             let a1 = TimeZone::local();
